@@ -85,6 +85,15 @@ namespace xv
         static X f(X a, X const& b, long) { a ^= b; return a; }
     };
 
+    XV_SCALAR_RHS(op_add_rs, a + s)
+    XV_SCALAR_LHS(op_add_ls, s + b)
+    XV_SCALAR_RHS(op_sub_rs, a - s)
+    XV_SCALAR_LHS(op_sub_ls, s - b)
+    XV_SCALAR_RHS(op_mul_rs, a* s)
+    XV_SCALAR_LHS(op_mul_ls, s* b)
+    XV_SCALAR_RHS(op_div_rs, a / s)
+    XV_SCALAR_LHS(op_div_ls, s / b)
+
     // ---- C08 ----
     XV_OP1(op_ceil, xs::ceil(a))
     XV_OP1(op_floor, xs::floor(a))
@@ -111,6 +120,14 @@ namespace xv
         reg_b<op_div>("C02", "div", ft);
         reg_b<op_div_fn>("C02", "div.fn", ft);
         reg_b<op_div_assign>("C02", "div.assign", ft);
+        reg_b<op_add_rs>("C02", "add.rs", ft);
+        reg_b<op_add_ls>("C02", "add.ls", ft);
+        reg_b<op_sub_rs>("C02", "sub.rs", ft);
+        reg_b<op_sub_ls>("C02", "sub.ls", ft);
+        reg_b<op_mul_rs>("C02", "mul.rs", ft);
+        reg_b<op_mul_ls>("C02", "mul.ls", ft);
+        reg_b<op_div_rs>("C02", "div.rs", ft);
+        reg_b<op_div_ls>("C02", "div.ls", ft);
         reg_b<op_sub_assign>("C02", "sub.assign", ft);
         reg_b<op_mul_assign>("C02", "mul.assign", ft);
         reg_b<op_and_assign>("C02", "and.assign", ft);
